@@ -308,9 +308,9 @@ type inst struct {
 	inc      int
 	plan     *inject.Plan
 	lastPlan *inject.Plan // plan of the most recent creation attempt
-	kv   *spyKV
-	S    blobserver.Storage
-	m0   int // meta blobs present when the current incarnation started
+	kv       *spyKV
+	S        blobserver.Storage
+	m0       int // meta blobs present when the current incarnation started
 }
 
 const agree = "that encryption support hasn't been peer-reviewed, isn't finished, and its format might change."
